@@ -15,6 +15,7 @@
   full statement, refutation on a witness, `…_partial`.
 -/
 import ControlModel.Proofs.Transition
+import ControlModel.Proofs.DeployAttempts
 import ControlModel.Gen.C02Facts
 
 open EnvM Trans
@@ -1006,6 +1007,532 @@ theorem C02_ack_under_loss (o : Outcome) (l : Option Loss) :
 theorem C02_loss_never_acks (o : Outcome) (l : Option Loss) (h : o ≠ .ok) : o.under l ≠ .ok :=
   fun hu => h ((C02_ack_under_loss o l).1 hu).1
 
+/-! ## DEPLOY when the offers come late: the attempt loop of acquireTasks
+
+  Manager.acquireTasks requests the whole deployment, revives offers and waits for the verdict of the next offers round;
+  when a critical descriptor was left undeployed it pauses and tries again, up to MAX_ATTEMPTS_PER_DEPLOY_REQUEST times
+  (Model/DeployAttempts.lean). The offers rounds are an INPUT: every theorem below quantifies over all descriptor lists
+  (any critical mix, any placement, machines that no agent has) and ALL patterns of missing offers — any host missing
+  from any round, not only "late by k rounds". -/
+
+/-- Tie to the source (go/ast, regenerated every run): the attempt limit is the literal of schedulerstate.go and the loop
+    counts up to it; the loop body resets the verdict flag before it hands the request to the scheduler; the flag is set
+    to false only for CRITICAL descriptors; a successful attempt leaves the loop at once; a failed deployment detaches
+    what it launched and only a successful one gives roles their tasks; resourceOffers abandons a round in which a
+    machine-bound descriptor has no offer before it launches anything. -/
+theorem C02_attempt_loop_is_code :
+    AcqCfg.code = { maxAttempts := Gen.C02.maxDeployAttempts, resetPerAttempt := Gen.C02.attemptResetsVerdict } ∧
+    Gen.C02.attemptFailsOnlyOnCritical = true ∧ Gen.C02.attemptLoopBreaksOnSuccess = true ∧
+    Gen.C02.failedDeploymentDetaches = true ∧ Gen.C02.roundAbandonedWhenUndeployable = true := by decide
+
+/-- acquireTasks' verdict on an attempt, for EVERY descriptor list and EVERY offers round: a failure iff a CRITICAL
+    descriptor does not find the offer of its machine. -/
+theorem C02_attempt_verdict_critical_only (ds : List Desc) (r : Round) :
+    attemptVerdict ds (roundOutcome ds r) = !critMissing ds r :=
+  attemptVerdict_round ds r
+
+/-- What happens to tasks launched in a failed attempt: there are none — a round in which any descriptor misses its
+    offer is abandoned before a task is launched, so a failed attempt leaves nothing behind that the next one would
+    launch a second time. -/
+theorem C02_failed_attempt_launches_nothing (ds : List Desc) (r : Round)
+    (h : attemptVerdict ds (roundOutcome ds r) = false) : (roundOutcome ds r).deployed = [] := by
+  rw [attemptVerdict_round] at h
+  exact roundOutcome_incomplete ds r (critMissing_incomplete ds r (by simpa using h))
+
+/-- Never more attempts than the limit (any configuration, any rounds). -/
+theorem C02_attempts_bounded (cfg : AcqCfg) (ds : List Desc) (rs : List Round) :
+    (acquire cfg ds rs).attempts.length ≤ cfg.maxAttempts := by
+  unfold acquire
+  split
+  · simp
+  · exact acquireLoop_length cfg ds cfg.maxAttempts true rs
+
+/-- The verdict on an attempt depends on that attempt alone: whatever the earlier attempts left in the flag, the loop
+    of the code as it is goes on in the same way. -/
+theorem C02_attempt_verdicts_independent (ds : List Desc) (n : Nat) (flag : Bool) (rs : List Round) :
+    acquireLoop AcqCfg.code ds (n + 1) flag rs = acquireLoop AcqCfg.code ds (n + 1) true rs :=
+  acquireLoop_code_flag attemptLimit ds n flag rs
+
+theorem acquire_code_facts (ds : List Desc) (rs : List Round) :
+    let a := acquire AcqCfg.code ds rs
+    retriesJustified ds a.attempts = true ∧
+    (∀ l ∈ a.attempts.dropLast, l = []) ∧
+    (a.ok = true → a.kept = lastAttempt a.attempts ∧ a.marked = []) ∧
+    (a.ok = false → a.kept = [] ∧ critUnlaunched ds (lastAttempt a.attempts) = true) ∧
+    (a.ok = true ↔ ∃ i, i < attemptLimit ∧ critMissing ds (rs.getD i []) = false) := by
+  by_cases hne : ds = []
+  · subst hne
+    simp only [acquire_nil]
+    refine ⟨rfl, by simp, by simp [lastAttempt], by simp, ?_⟩
+    simp only [true_iff]
+    exact ⟨0, by decide, by simp [critMissing]⟩
+  · simp only [acquire_code_nonempty ds rs hne]
+    exact acquireLoop_code_facts attemptLimit ds 2 true rs
+
+/-- acquireTasks succeeds iff SOME attempt within the limit is not a failure — for every descriptor list and every
+    pattern of missing offers. -/
+theorem C02_acquire_succeeds_iff (ds : List Desc) (rs : List Round) :
+    (acquire AcqCfg.code ds rs).ok = true ↔ ∃ i, i < attemptLimit ∧ critMissing ds (rs.getD i []) = false :=
+  (acquire_code_facts ds rs).2.2.2.2
+
+/-- Only the last attempt launches anything: nothing launched in an earlier attempt is abandoned. -/
+theorem C02_only_last_attempt_launches (ds : List Desc) (rs : List Round) :
+    ∀ l ∈ (acquire AcqCfg.code ds rs).attempts.dropLast, l = [] :=
+  (acquire_code_facts ds rs).2.1
+
+/-- The whole deployment is requested again only after an attempt that left a critical descriptor unlaunched. -/
+theorem C02_retry_only_after_unlaunched_critical (ds : List Desc) (rs : List Round) :
+    retriesJustified ds (acquire AcqCfg.code ds rs).attempts = true :=
+  (acquire_code_facts ds rs).1
+
+/-- Closed form, success: the FIRST attempt that is not a failure decides, wherever it is within the limit; the attempts
+    before it launched nothing; its tasks are the ones the roles get. -/
+theorem C02_first_good_attempt_decides (ds : List Desc) (rs : List Round) (hne : ds ≠ []) (i : Nat)
+    (hi : i < attemptLimit) (hfail : ∀ j, j < i → critMissing ds (rs.getD j []) = true)
+    (hgood : critMissing ds (rs.getD i []) = false) :
+    acquire AcqCfg.code ds rs =
+      { attempts := List.replicate i [] ++ [(roundOutcome ds (rs.getD i [])).deployed], ok := true,
+        kept := (roundOutcome ds (rs.getD i [])).deployed, marked := [] } := by
+  rw [acquire_code_nonempty ds rs hne]
+  exact acquireLoop_code_first attemptLimit ds i 3 true rs hi hfail hgood
+
+/-- Closed form, genuine failure: every attempt up to the limit leaves a critical descriptor without its offer. Nothing
+    was launched, no role holds a task, and exactly the critical descriptors that missed their offer in the last round
+    are marked UNDEPLOYABLE. -/
+theorem C02_attempts_exhausted (ds : List Desc) (rs : List Round) (hne : ds ≠ [])
+    (h : ∀ j, j < attemptLimit → critMissing ds (rs.getD j []) = true) :
+    acquire AcqCfg.code ds rs =
+      { attempts := List.replicate attemptLimit [], ok := false, kept := [],
+        marked := (roundOutcome ds (rs.getD 2 [])).undeployable.filter (critAt ds) } := by
+  rw [acquire_code_nonempty ds rs hne]
+  exact acquireLoop_code_exhausted attemptLimit ds 2 true rs h
+
+/-- The two closed forms are all there is: the first attempt within the limit that is not a failure, or none. -/
+theorem acquire_code_cases (ds : List Desc) (rs : List Round) (hne : ds ≠ []) :
+    (∃ i, i < attemptLimit ∧ (∀ j, j < i → critMissing ds (rs.getD j []) = true) ∧
+        critMissing ds (rs.getD i []) = false ∧
+        acquire AcqCfg.code ds rs =
+          { attempts := List.replicate i [] ++ [(roundOutcome ds (rs.getD i [])).deployed], ok := true,
+            kept := (roundOutcome ds (rs.getD i [])).deployed, marked := [] }) ∨
+    ((∀ j, j < attemptLimit → critMissing ds (rs.getD j []) = true) ∧
+        acquire AcqCfg.code ds rs =
+          { attempts := List.replicate attemptLimit [], ok := false, kept := [],
+            marked := (roundOutcome ds (rs.getD 2 [])).undeployable.filter (critAt ds) }) := by
+  cases h0 : critMissing ds (rs.getD 0 [])
+  · exact Or.inl ⟨0, by decide, by intro j hj; omega, h0,
+      C02_first_good_attempt_decides ds rs hne 0 (by decide) (by intro j hj; omega) h0⟩
+  · cases h1 : critMissing ds (rs.getD 1 [])
+    · have hf : ∀ j, j < 1 → critMissing ds (rs.getD j []) = true := by
+        intro j hj; have : j = 0 := by omega
+        subst this; exact h0
+      exact Or.inl ⟨1, by decide, hf, h1, C02_first_good_attempt_decides ds rs hne 1 (by decide) hf h1⟩
+    · cases h2 : critMissing ds (rs.getD 2 [])
+      · have hf : ∀ j, j < 2 → critMissing ds (rs.getD j []) = true := by
+          intro j hj
+          have : j = 0 ∨ j = 1 := by omega
+          rcases this with rfl | rfl
+          · exact h0
+          · exact h1
+        exact Or.inl ⟨2, by decide, hf, h2, C02_first_good_attempt_decides ds rs hne 2 (by decide) hf h2⟩
+      · have hf : ∀ j, j < attemptLimit → critMissing ds (rs.getD j []) = true := by
+          intro j hj
+          have : j = 0 ∨ j = 1 ∨ j = 2 := by simp only [attemptLimit] at hj; omega
+          rcases this with rfl | rfl | rfl
+          · exact h0
+          · exact h1
+          · exact h2
+        exact Or.inr ⟨hf, C02_attempts_exhausted ds rs hne hf⟩
+
+theorem range_all_of_forall (n : Nat) (f : Nat → Bool) (h : ∀ j, j < n → f j = true) : (List.range n).all f = true := by
+  rw [List.all_eq_true]
+  intro j hj
+  exact h j (List.mem_range.1 hj)
+
+/-- The attempts of the code as it is satisfy the clause of Spec.C02 about them, for every descriptor list and every
+    pattern of missing offers: at most the limit; a retry only after a round in which a critical descriptor's machine was
+    missing; no giving up before the limit while one still is. -/
+theorem C02_attempts_ok (ds : List Desc) (rs : List Round) :
+    attemptsOk ds rs (acquire AcqCfg.code ds rs).attempts.length = true := by
+  by_cases hne : ds = []
+  · subst hne; simp [acquire_nil, attemptsOk, attemptLimit, critMissing]
+  · rcases acquire_code_cases ds rs hne with ⟨i, hi, hfail, hgood, ha⟩ | ⟨hfail, ha⟩
+    · rw [ha]
+      simp only [attemptsOk, List.length_append, List.length_replicate, List.length_cons, List.length_nil,
+        Nat.zero_add, Nat.add_sub_cancel, lastRound, hgood, Bool.not_false, Bool.true_or, Bool.and_true,
+        Bool.and_eq_true, decide_eq_true_eq]
+      exact ⟨by omega, range_all_of_forall i _ hfail⟩
+    · rw [ha]
+      simp only [attemptsOk, List.length_replicate, lastRound, Bool.and_eq_true, decide_eq_true_eq, Nat.le_refl,
+        true_and, BEq.rfl, Bool.or_true, and_true]
+      exact range_all_of_forall _ _ (fun j hj => hfail j (by simp only [attemptLimit] at hj ⊢; omega))
+
+theorem complete_not_missing (ds : List Desc) (r : Round) (h : complete ds r = true) : critMissing ds r = false := by
+  cases hm : critMissing ds r
+  · rfl
+  · rw [critMissing_incomplete ds r hm] at h; cases h
+
+/-- Full strength, per configuration of the loop: a deployment whose offers come late — some attempt within the limit
+    finds every machine's offer after attempts that each left a critical task without one — is reported DEPLOYED, every
+    task coming up. In EVERY environment, those that drop a verdict on its way to acquireTasks included. -/
+def C02_deploy_retry_full (acfg : AcqCfg) : Prop :=
+  ∀ (w : OWorkflow) (i : Nat), i < attemptLimit →
+    (∀ j, j < i → critMissing w.descs (w.rounds.getD j []) = true) →
+    complete w.descs (w.rounds.getD i []) = true →
+    (∀ t ∈ w.tasks, t.launch = .ok) → w.tasks ≠ [] → w.notifyLost = false →
+    deployBody (w.eff (w.acquired acfg)).tasks w.calls w.notifyLost = .ok
+
+/-- The same with the excluding hypothesis: every verdict reaches acquireTasks. -/
+def C02_deploy_retry_heard (acfg : AcqCfg) : Prop :=
+  ∀ (w : OWorkflow) (i : Nat), w.verdictLost = none → i < attemptLimit →
+    (∀ j, j < i → critMissing w.descs (w.rounds.getD j []) = true) →
+    complete w.descs (w.rounds.getD i []) = true →
+    (∀ t ∈ w.tasks, t.launch = .ok) → w.tasks ≠ [] → w.notifyLost = false →
+    deployBody (w.eff (w.acquired acfg)).tasks w.calls w.notifyLost = .ok
+
+/-- The code as it is: it holds whenever the verdicts are heard. Whether the complete round is the first, the second or
+    the third makes no difference. -/
+theorem C02_deploy_retry_partial : C02_deploy_retry_heard AcqCfg.code := by
+  intro w i hv hi hfail hcomplete hscripts hne hl
+  have hacq : w.acquired AcqCfg.code = acquire AcqCfg.code w.descs w.rounds := by simp [OWorkflow.acquired, hv]
+  rw [hacq]
+  have hdne : w.descs ≠ [] := by
+    intro h; apply hne; simpa [OWorkflow.descs] using h
+  rw [C02_first_good_attempt_decides w.descs w.rounds hdne i hi hfail (complete_not_missing _ _ hcomplete)]
+  rw [deployBody_ok]
+  refine ⟨hl, Or.inl ?_, ?_⟩
+  · intro h
+    apply hne
+    have : (indexed w.tasks).length = 0 := by simpa [OWorkflow.eff] using congrArg List.length h
+    rw [indexed_length] at this
+    exact List.length_eq_zero_iff.1 this
+  · intro l hl'
+    simp only [OWorkflow.eff, List.mem_map] at hl'
+    obtain ⟨p, hp, rfl⟩ := hl'
+    obtain ⟨hlt, hmem⟩ := mem_indexed_lt w.tasks p hp
+    have hk : (roundOutcome w.descs (w.rounds.getD i [])).deployed.contains p.1 = true := by
+      rw [(roundOutcome_complete _ _ hcomplete).1]
+      simp [OWorkflow.descs, hlt]
+    simp only [effLaunch, hk, ↓reduceIte]
+    exact hscripts p.2 hmem
+
+/-- finding `deploy_verdict_lost`: in full it is false of the code as it is. resourceOffers hands the verdict of a round
+    to acquireTasks with a non-blocking send on an unbuffered channel; when the round is over before acquireTasks
+    listens, the verdict is dropped: the tasks were launched and come up, acquireTasks waits for ever (holding the
+    deployment mutex), no role gets its task, DEPLOY times out. -/
+theorem C02_finding_deploy_verdict_lost : ¬ C02_deploy_retry_full AcqCfg.code := by
+  intro h
+  have := h { calls := 0, tasks := [⟨true, .ok, 1⟩, ⟨false, .ok, 2⟩], rounds := [], verdictLost := some 0 } 0
+    (by decide) (by intro j hj; omega) (by decide) (by decide) (by decide) rfl
+  revert this; decide
+
+/-- Without the reset at the head of the loop body it is false even when every verdict is heard: a critical task whose
+    machine is missing from the first round only is launched by the second attempt and comes up, yet the deployment is
+    not reported (the flag is sticky, the launched task is detached, DEPLOY can only time out). -/
+theorem C02_retry_needs_reset : ¬ C02_deploy_retry_heard AcqCfg.sticky := by
+  intro h
+  have := h { calls := 0, tasks := [⟨true, .ok, 1⟩, ⟨false, .ok, 2⟩], rounds := [[1]] } 1 rfl (by decide)
+    (by intro j hj; have : j = 0 := by omega
+        subst this; decide)
+    (by decide) (by decide) (by decide) rfl
+  revert this; decide
+
+/-- The converse: when every attempt up to the limit leaves a critical descriptor without its offer, DEPLOY fails. -/
+theorem C02_deploy_exhausted_fails (w : OWorkflow)
+    (h : ∀ j, j < attemptLimit → critMissing w.descs (w.rounds.getD j []) = true) :
+    deployBody (w.eff (acquire AcqCfg.code w.descs w.rounds)).tasks w.calls w.notifyLost ≠ .ok := by
+  have hf := acquire_code_facts w.descs w.rounds
+  have hnok : (acquire AcqCfg.code w.descs w.rounds).ok = false := by
+    cases hok : (acquire AcqCfg.code w.descs w.rounds).ok
+    · rfl
+    · obtain ⟨i, hi, hc⟩ := hf.2.2.2.2.1 hok
+      rw [h i hi] at hc; cases hc
+  obtain ⟨hk, hu⟩ := hf.2.2.2.1 hnok
+  exact C02_deploy_critical_needed _ _ _ (eff_not_launched w _ _ hk hu)
+
+/-- Conservative extension: with every round complete (and every role on a machine that exists) the first attempt
+    launches everything and the DEPLOY wait sees the workflow exactly as the model without offers rounds has it. -/
+theorem C02_no_late_offers_is_plain (w : OWorkflow) (hne : w.tasks ≠ []) (hr : w.rounds = [])
+    (hh : ∀ t ∈ w.tasks, t.launch ≠ .nohost) :
+    (acquire AcqCfg.code w.descs w.rounds).attempts = [List.range w.tasks.length] ∧
+    w.eff (acquire AcqCfg.code w.descs w.rounds) =
+      { calls := w.calls, tasks := w.tasks.map (fun t => (t.critical, t.launch)), notifyLost := w.notifyLost } := by
+  have hdne : w.descs ≠ [] := by
+    intro h; apply hne; simpa [OWorkflow.descs] using h
+  have hcomplete : complete w.descs (w.rounds.getD 0 []) = true := by
+    simp only [hr, complete, OWorkflow.descs, List.all_map, List.all_eq_true]
+    intro t ht
+    simp [OTask.desc, Desc.offered, hh t ht]
+  have hlen : w.descs.length = w.tasks.length := by simp [OWorkflow.descs]
+  rw [C02_first_good_attempt_decides w.descs w.rounds hdne 0 (by decide) (by intro j hj; omega)
+    (complete_not_missing _ _ hcomplete)]
+  rw [(roundOutcome_complete _ _ hcomplete).1, hlen]
+  exact ⟨by simp, eff_all w _ rfl⟩
+
+/-! ### Spec.C02 on scenarios with offers rounds -/
+
+theorem judgeAll_att (sc : Scenario) (o : Obs) (os : List Obs) (x : Option (List (List Nat))) :
+    judgeAll sc ({ o with att := x } :: os) = judgeAll sc (o :: os) := rfl
+
+theorem run_deploy_fails (cfg : Cfg) (sc : Scenario)
+    (h : deployBody sc.wf.tasks sc.wf.calls sc.wf.notifyLost ≠ .ok) :
+    ∃ ra, run cfg sc = [{ ev := none, rpc := .err, state := none, after := none, cmd := [], runningAcked := ra }] := by
+  unfold run createEnvironment
+  cases hd : deployBody sc.wf.tasks sc.wf.calls sc.wf.notifyLost with
+  | ok => exact absurd hd h
+  | error => exact ⟨_, rfl⟩
+  | hang => exact ⟨_, rfl⟩
+
+theorem judge_att (sc : Scenario) (o : Obs) (os : List Obs) (x : Option (List (List Nat))) (y : Bool) :
+    judge sc ({ o with att := x, verdictLost := y } :: os) = judge sc (o :: os) := rfl
+
+/-- With the last verdict heard, `judgeO` is the clause about the attempts plus `judge` on the workflow as offered. -/
+theorem judgeO_heard (sc : OScenario) (o : Obs) (os : List Obs)
+    (att : List (List Nat)) (ho : o.att = some att) (hv : lostLast sc.wf att.length = false) :
+    judgeO sc (o :: os) =
+      if attemptsOk sc.wf.descs sc.wf.rounds att.length then
+        judge { wf := sc.wf.asOffered att.length, configure := sc.configure, steps := sc.steps } (o :: os)
+      else some "-" := by
+  simp only [judgeO, ho, hv]
+  generalize (if attemptsOk sc.wf.descs sc.wf.rounds att.length = true then
+      judge { wf := sc.wf.asOffered att.length, configure := sc.configure, steps := sc.steps } (o :: os)
+    else some "-") = v
+  cases v <;> simp
+
+/-- With the last verdict lost, every violation is attributed to that. -/
+theorem judgeO_lost (sc : OScenario) (o : Obs) (os : List Obs)
+    (att : List (List Nat)) (ho : o.att = some att) (hv : lostLast sc.wf att.length = true) :
+    judgeO sc (o :: os) = none ∨ judgeO sc (o :: os) = some "deploy_verdict_lost" := by
+  simp only [judgeO, ho, hv]
+  generalize (if attemptsOk sc.wf.descs sc.wf.rounds att.length = true then
+      judge { wf := sc.wf.asOffered att.length, configure := sc.configure, steps := sc.steps } (o :: os)
+    else some "-") = v
+  cases v <;> simp
+
+theorem runO_heard (acfg : AcqCfg) (cfg : Cfg) (sc : OScenario) (hh : sc.wf.hung acfg = false) :
+    runO acfg cfg sc =
+      match run cfg { wf := sc.wf.eff (acquire acfg sc.wf.descs sc.wf.rounds), configure := sc.configure, steps := sc.steps } with
+      | [] => []
+      | o :: os => { o with att := some (acquire acfg sc.wf.descs sc.wf.rounds).attempts, verdictLost := false } :: os := by
+  have ha : sc.wf.acquired acfg = acquire acfg sc.wf.descs sc.wf.rounds := by
+    unfold OWorkflow.acquired OWorkflow.hung at *
+    cases hv : sc.wf.verdictLost with
+    | none => rfl
+    | some k =>
+      simp only [hv, decide_eq_false_iff_not] at hh
+      simp [acquireLost, hh]
+  unfold runO
+  simp only [ha, hh]
+  cases run cfg { wf := sc.wf.eff (acquire acfg sc.wf.descs sc.wf.rounds), configure := sc.configure, steps := sc.steps } <;> rfl
+
+theorem not_hung_not_lost (acfg : AcqCfg) (w : OWorkflow) (hh : w.hung acfg = false) :
+    lostLast w (acquire acfg w.descs w.rounds).attempts.length = false := by
+  unfold OWorkflow.hung at hh
+  unfold lostLast
+  cases hv : w.verdictLost with
+  | none => rfl
+  | some k =>
+    simp only [hv, decide_eq_false_iff_not] at hh
+    simp only [beq_eq_false_iff_ne, ne_eq]
+    omega
+
+/-- DEPLOY failed: the verdict on the lone NewEnvironment observation, whatever the workflow it is judged against. -/
+theorem judge_deploy_failed (sc : Scenario) (ra : Bool) (att : Option (List (List Nat))) (vl : Bool) :
+    let o : Obs := { ev := none, rpc := .err, state := none, after := none, cmd := [], runningAcked := ra, att := att,
+                     verdictLost := vl }
+    (allCriticalLaunched sc.wf.tasks = false → judge sc [o] = none) ∧
+    (noncritLaunchFail sc.wf.tasks = true →
+      judge sc [o] = none ∨ judge sc [o] = some "deploy_empty_workflow" ∨ judge sc [o] = some "deploy_misses_active" ∨
+      judge sc [o] = some "deploy_noncritical_blocks") := by
+  intro o
+  constructor
+  · intro hl
+    simp [judge, judgeAll, judgeNew, hl, Trans.reqOk, reached, o]
+  · intro hn
+    cases hl : allCriticalLaunched sc.wf.tasks
+    · left; simp [judge, judgeAll, judgeNew, hl, Trans.reqOk, reached, o]
+    · cases ha : allCriticalAcked (targets (pair (sc.wf.tasks.map (fun t => ({ critical := t.1, active := t.2 = .ok } : Task))) sc.configure))
+      · left; simp [judge, judgeAll, judgeNew, hl, ha, Trans.reqOk, reached, o]
+      · cases h0 : emptyWorkflow sc.wf <;> cases h2 : earlyRunning sc.wf.tasks <;> cases h3 : sc.wf.notifyLost <;>
+          simp [judge, judgeAll, judgeNew, hl, ha, Trans.reqOk, reached, o, h0, h2, h3, hn, openCorner]
+
+/-- `judgeO` of the model's run is `judge` of a plain run (the deployment was decided on a complete round), "no
+    violation" (a critical task's machine was missing to the end), or a verdict inside the open DEPLOY corners with the
+    workflow as offered having a non-critical task that could not start. -/
+theorem judgeO_runO (sc : OScenario) (hh : sc.wf.hung AcqCfg.code = false) :
+    let n := (acquire AcqCfg.code sc.wf.descs sc.wf.rounds).attempts.length
+    let off : Scenario := { wf := sc.wf.asOffered n, configure := sc.configure, steps := sc.steps }
+    judgeO sc (runO AcqCfg.code Cfg.code sc) = judge off (run Cfg.code off) ∨
+    judgeO sc (runO AcqCfg.code Cfg.code sc) = none ∨
+    (noncritLaunchFail off.wf.tasks = true ∧
+      (judgeO sc (runO AcqCfg.code Cfg.code sc) = some "deploy_empty_workflow" ∨
+       judgeO sc (runO AcqCfg.code Cfg.code sc) = some "deploy_misses_active" ∨
+       judgeO sc (runO AcqCfg.code Cfg.code sc) = some "deploy_noncritical_blocks")) := by
+  intro n off
+  have hatt : attemptsOk sc.wf.descs sc.wf.rounds n = true := C02_attempts_ok sc.wf.descs sc.wf.rounds
+  by_cases hne : sc.wf.tasks = []
+  · -- no task role: acquireTasks is not called, nothing is offered to anybody
+    left
+    have hd : sc.wf.descs = [] := by simp [OWorkflow.descs, hne]
+    have hn : n = 0 := by simp [n, hd, acquire_nil]
+    have heff : sc.wf.eff (acquire AcqCfg.code sc.wf.descs sc.wf.rounds) = sc.wf.asOffered n := by
+      simp [OWorkflow.eff, OWorkflow.asOffered, hne, indexed]
+    rw [runO_heard _ _ sc hh]
+    simp only [heff]
+    show judgeO sc (match run Cfg.code off with
+      | [] => []
+      | o :: os => { o with att := some (acquire AcqCfg.code sc.wf.descs sc.wf.rounds).attempts, verdictLost := false } :: os) = _
+    cases hr : run Cfg.code off with
+    | nil => simp [judgeO, judge, judgeAll]
+    | cons o os =>
+      rw [judgeO_heard sc _ _ _ rfl (not_hung_not_lost _ _ hh)]
+      rw [show (acquire AcqCfg.code sc.wf.descs sc.wf.rounds).attempts.length = n from rfl, hatt]
+      simp only [↓reduceIte]
+      exact judge_att off o os _ _
+  · have hdne : sc.wf.descs ≠ [] := by
+      intro h; apply hne; simpa [OWorkflow.descs] using h
+    have hlen : sc.wf.descs.length = sc.wf.tasks.length := by simp [OWorkflow.descs]
+    rcases acquire_code_cases sc.wf.descs sc.wf.rounds hdne with ⟨i, hi, hfail, hgood, ha⟩ | ⟨hfail, ha⟩
+    · have hn : n = i + 1 := by simp [n, ha]
+      have hlast : lastRound sc.wf.rounds n = sc.wf.rounds.getD i [] := by simp [lastRound, hn]
+      cases hc : complete sc.wf.descs (sc.wf.rounds.getD i [])
+      · -- decided on a round that lacks the machine of a non-critical task only: nothing launched, DEPLOY times out
+        have hk : (acquire AcqCfg.code sc.wf.descs sc.wf.rounds).kept = [] := by
+          rw [ha]; exact roundOutcome_incomplete _ _ hc
+        have hfailN := asOffered_noncrit_fail sc.wf n (by rw [hlast]; exact hc) (by rw [hlast]; exact hgood)
+        obtain ⟨ra, hrun⟩ := run_deploy_fails Cfg.code
+          { wf := sc.wf.eff (acquire AcqCfg.code sc.wf.descs sc.wf.rounds), configure := sc.configure, steps := sc.steps }
+          (eff_none_fails sc.wf _ hk hne)
+        have hj := (judge_deploy_failed off ra (some (acquire AcqCfg.code sc.wf.descs sc.wf.rounds).attempts) false).2 hfailN
+        have hO : judgeO sc (runO AcqCfg.code Cfg.code sc) =
+            judge off [{ ev := none, rpc := .err, state := none, after := none, cmd := [], runningAcked := ra,
+                         att := some (acquire AcqCfg.code sc.wf.descs sc.wf.rounds).attempts, verdictLost := false }] := by
+          rw [runO_heard _ _ sc hh]
+          simp only [hrun]
+          rw [judgeO_heard sc _ _ _ rfl (not_hung_not_lost _ _ hh)]
+          rw [show (acquire AcqCfg.code sc.wf.descs sc.wf.rounds).attempts.length = n from rfl, hatt]
+          rfl
+        rcases hj with hj | hj | hj | hj
+        · exact Or.inr (Or.inl (hO.trans hj))
+        · exact Or.inr (Or.inr ⟨hfailN, Or.inl (hO.trans hj)⟩)
+        · exact Or.inr (Or.inr ⟨hfailN, Or.inr (Or.inl (hO.trans hj))⟩)
+        · exact Or.inr (Or.inr ⟨hfailN, Or.inr (Or.inr (hO.trans hj))⟩)
+      · -- decided on a complete round: every role got its task
+        left
+        have hk : (acquire AcqCfg.code sc.wf.descs sc.wf.rounds).kept = List.range sc.wf.tasks.length := by
+          rw [ha, ← hlen]; exact (roundOutcome_complete _ _ hc).1
+        have heff : sc.wf.eff (acquire AcqCfg.code sc.wf.descs sc.wf.rounds) = sc.wf.asOffered n := by
+          rw [eff_all sc.wf _ hk, asOffered_complete sc.wf n (by rw [hlast]; exact hc)]
+        rw [runO_heard _ _ sc hh]
+        simp only [heff]
+        show judgeO sc (match run Cfg.code off with
+          | [] => []
+          | o :: os => { o with att := some (acquire AcqCfg.code sc.wf.descs sc.wf.rounds).attempts, verdictLost := false } :: os) = _
+        cases hr : run Cfg.code off with
+        | nil => simp [judgeO, judge, judgeAll]
+        | cons o os =>
+          rw [judgeO_heard sc _ _ _ rfl (not_hung_not_lost _ _ hh)]
+          rw [show (acquire AcqCfg.code sc.wf.descs sc.wf.rounds).attempts.length = n from rfl, hatt]
+          simp only [↓reduceIte]
+          exact judge_att off o os _ _
+    · -- every attempt up to the limit left a critical task without its machine
+      right; left
+      have hn : n = attemptLimit := by simp [n, ha]
+      have hlast : lastRound sc.wf.rounds n = sc.wf.rounds.getD 2 [] := by simp [lastRound, hn, attemptLimit]
+      have hk : (acquire AcqCfg.code sc.wf.descs sc.wf.rounds).kept = [] := by rw [ha]
+      have hcm := asOffered_crit_missing sc.wf n (by rw [hlast]; exact hfail 2 (by decide))
+      obtain ⟨ra, hrun⟩ := run_deploy_fails Cfg.code
+        { wf := sc.wf.eff (acquire AcqCfg.code sc.wf.descs sc.wf.rounds), configure := sc.configure, steps := sc.steps }
+        (eff_none_fails sc.wf _ hk hne)
+      have hj := (judge_deploy_failed off ra (some (acquire AcqCfg.code sc.wf.descs sc.wf.rounds).attempts) false).1 hcm
+      rw [runO_heard _ _ sc hh]
+      simp only [hrun]
+      rw [judgeO_heard sc _ _ _ rfl (not_hung_not_lost _ _ hh)]
+      rw [show (acquire AcqCfg.code sc.wf.descs sc.wf.rounds).attempts.length = n from rfl, hatt]
+      exact hj
+
+theorem hung_of_heard (acfg : AcqCfg) (w : OWorkflow) (hv : w.verdictLost = none) : w.hung acfg = false := by
+  simp [OWorkflow.hung, hv]
+
+/-- The code as it is satisfies Spec.C02 on EVERY scenario with offers rounds in which every verdict is heard — every
+    pattern of missing offers, every placement and critical mix (machines that no agent has included), every request
+    sequence after the deployment — outside the three open DEPLOY corners, evaluated on the workflow as offered in the
+    last round that took place (a NON-critical task whose machine is missing from it is "a non-critical task that did not
+    start"). -/
+theorem C02_attempts_spec_code (sc : OScenario) (hv : sc.wf.verdictLost = none) :
+    let wf := sc.wf.asOffered (acquire AcqCfg.code sc.wf.descs sc.wf.rounds).attempts.length
+    emptyWorkflow wf = false → noncritLaunchFail wf.tasks = false → earlyRunning wf.tasks = false →
+    wf.notifyLost = false → judgeO sc (runO AcqCfg.code Cfg.code sc) = none := by
+  intro wf h0 h1 h2 h3
+  rcases judgeO_runO sc (hung_of_heard _ _ hv) with h | h | ⟨hn, _⟩
+  · rw [h]; exact C02_spec_code _ h0 h1 h2 h3
+  · exact h
+  · rw [show noncritLaunchFail wf.tasks = true from hn] at h1; cases h1
+
+/-- …and on ALL of them — lost verdicts included — nothing else is left: a rejected run of the model lies in one of the
+    three open DEPLOY corners or is due to a lost verdict. -/
+theorem C02_attempts_only_open_corners_code (sc : OScenario) (h : String)
+    (hj : judgeO sc (runO AcqCfg.code Cfg.code sc) = some h) :
+    h = "deploy_empty_workflow" ∨ h = "deploy_misses_active" ∨ h = "deploy_noncritical_blocks" ∨
+    h = "deploy_verdict_lost" := by
+  cases hh : sc.wf.hung AcqCfg.code with
+  | false =>
+    rcases judgeO_runO sc hh with h' | h' | ⟨_, h' | h' | h'⟩
+    · rw [h'] at hj
+      rcases C02_only_deploy_corners_code _ h hj with h | h | h
+      · exact Or.inl h
+      · exact Or.inr (Or.inl h)
+      · exact Or.inr (Or.inr (Or.inl h))
+    · rw [h'] at hj; cases hj
+    · rw [h'] at hj; left; exact (Option.some.inj hj).symm
+    · rw [h'] at hj; right; left; exact (Option.some.inj hj).symm
+    · rw [h'] at hj; right; right; left; exact (Option.some.inj hj).symm
+  | true =>
+    right; right; right
+    -- the verdict of the last attempt made is lost: whatever is rejected is attributed to that
+    unfold OWorkflow.hung at hh
+    cases hv : sc.wf.verdictLost with
+    | none => simp [hv] at hh
+    | some k =>
+      simp only [hv, decide_eq_true_eq] at hh
+      have ha : sc.wf.acquired AcqCfg.code =
+          { attempts := (acquire AcqCfg.code sc.wf.descs sc.wf.rounds).attempts.take (k + 1), ok := false, kept := [],
+            marked := [] } := by
+        simp [OWorkflow.acquired, hv, acquireLost, hh]
+      have hlen : ((acquire AcqCfg.code sc.wf.descs sc.wf.rounds).attempts.take (k + 1)).length = k + 1 := by
+        rw [List.length_take]; omega
+      have hl : lostLast sc.wf ((acquire AcqCfg.code sc.wf.descs sc.wf.rounds).attempts.take (k + 1)).length = true := by
+        simp [lostLast, hv, hlen]
+      unfold runO at hj
+      rw [ha] at hj
+      simp only at hj
+      revert hj
+      cases run Cfg.code { wf := sc.wf.eff _, configure := sc.configure, steps := sc.steps } with
+      | nil => intro hj; simp [judgeO] at hj
+      | cons o os =>
+        intro hj
+        rcases judgeO_lost sc
+          { o with att := some ((acquire AcqCfg.code sc.wf.descs sc.wf.rounds).attempts.take (k + 1)),
+                   verdictLost := sc.wf.hung AcqCfg.code } os _ rfl hl with h' | h'
+        · rw [h'] at hj; cases hj
+        · rw [h'] at hj; exact (Option.some.inj hj).symm
+
+theorem C02_attempts_corners_exhaustive (sc : OScenario) : judgeO sc (runO AcqCfg.code Cfg.code sc) ≠ some "-" := by
+  intro hj
+  rcases C02_attempts_only_open_corners_code sc "-" hj with h | h | h | h <;> revert h <;> decide
+
+/-- A lost verdict is never mistaken for a deployment: acquireTasks is still waiting, no role holds a task, DEPLOY
+    fails (the destination is not reported) — whatever was launched in that attempt. -/
+theorem C02_verdict_lost_never_reported (w : OWorkflow) (hne : w.tasks ≠ []) (hh : w.hung AcqCfg.code = true) :
+    deployBody (w.eff (w.acquired AcqCfg.code)).tasks w.calls w.notifyLost ≠ .ok := by
+  unfold OWorkflow.hung at hh
+  cases hv : w.verdictLost with
+  | none => simp [hv] at hh
+  | some k =>
+    simp only [hv, decide_eq_true_eq] at hh
+    have hk : (w.acquired AcqCfg.code).kept = [] := by
+      simp [OWorkflow.acquired, hv, acquireLost, hh]
+    exact eff_none_fails w _ hk hne
+
 /-! ## non-vacuity -/
 
 /-- A realistic mix satisfies the hypotheses of the partial theorems: two critical tasks and a failing non-critical one. -/
@@ -1051,3 +1578,41 @@ example :
   · intro c hc
     simp only [List.mem_cons, List.mem_nil_iff, or_false] at hc
     rcases hc with rfl | rfl <;> simp
+
+/-- Late offers, on the model of the code as it is: the critical task's machine is missing from the first two rounds;
+    the third attempt launches both tasks, NewEnvironment answers CONFIGURED, START goes to both. -/
+example :
+    runO AcqCfg.code Cfg.code
+      { wf := { calls := 0, tasks := [⟨true, .ok, 1⟩, ⟨false, .ok, 2⟩], rounds := [[1], [1]] }, configure := [.ok, .ok],
+        steps := [.ctl .START_ACTIVITY [.ok, .ok] false []] } =
+      [{ ev := none, rpc := .ok, state := some .CONFIGURED, after := some .CONFIGURED, cmd := [0, 1],
+         att := some [[], [], [0, 1]] },
+       { ev := some .START_ACTIVITY, rpc := .ok, state := some .RUNNING, after := some .RUNNING, cmd := [0, 1] }] := by
+  decide
+
+/-- The hypotheses of `C02_deploy_retry_full` are satisfiable with a retry (i = 2), and the sticky loop differs exactly there. -/
+example :
+    let w : OWorkflow := { calls := 0, tasks := [⟨true, .ok, 1⟩, ⟨true, .ok, 2⟩], rounds := [[1], [2]] }
+    critMissing w.descs (w.rounds.getD 0 []) = true ∧ critMissing w.descs (w.rounds.getD 1 []) = true ∧
+    complete w.descs (w.rounds.getD 2 []) = true ∧
+    (acquire AcqCfg.code w.descs w.rounds).attempts = [[], [], [0, 1]] ∧ (acquire AcqCfg.code w.descs w.rounds).ok = true ∧
+    (acquire AcqCfg.sticky w.descs w.rounds).attempts = [[], [], [0, 1]] ∧ (acquire AcqCfg.sticky w.descs w.rounds).ok = false := by
+  decide
+
+/-- A genuine failure: the machine never turns up within the limit — three empty attempts, the critical role marked. -/
+example :
+    acquire AcqCfg.code [⟨true, some 1⟩, ⟨false, some 2⟩] [[1], [1], [1]] =
+      { attempts := [[], [], []], ok := false, kept := [], marked := [0] } := by decide
+
+/-- A lost verdict, on the model of the code as it is: the critical task's machine is missing from the first round, the
+    verdict of that (abandoned) round never reaches acquireTasks — no second attempt, NewEnvironment fails. -/
+example :
+    runO AcqCfg.code Cfg.code
+      { wf := { calls := 0, tasks := [⟨true, .ok, 1⟩, ⟨false, .ok, 2⟩], rounds := [[1]], verdictLost := some 0 },
+        configure := [.ok, .ok], steps := [] } =
+      [{ ev := none, rpc := .err, state := none, after := none, cmd := [], att := some [[]], verdictLost := true }] ∧
+    judgeO { wf := { calls := 0, tasks := [⟨true, .ok, 1⟩, ⟨false, .ok, 2⟩], rounds := [[1]], verdictLost := some 0 },
+             configure := [.ok, .ok], steps := [] }
+      [{ ev := none, rpc := .err, state := none, after := none, cmd := [], att := some [[]], verdictLost := true }] =
+      some "deploy_verdict_lost" := by
+  decide
